@@ -378,6 +378,61 @@ func runC11(cfg Config) {
 			monitor(fmt.Sprintf("%d requests failed or ran on a closed store while swapping", bad), "swap.concurrent")
 		}
 	}
+	// Swap while a write (or a read) is in flight in the old store: Swap waits for it; the request completes on the store
+	// it started on, before that store is closed
+	for it := 0; it < cfg.N(20, 200); it++ {
+		for _, kind := range []string{"store", "get", "has"} {
+			old := &gatedCloseStore{gate: make(chan struct{}), entered: make(chan struct{}, 1)}
+			sw := desync.NewSwapWriteStore(old)
+			ch := desync.NewChunk(randBytes(rng, 30))
+			res := make(chan error, 1)
+			go func() {
+				switch kind {
+				case "store":
+					res <- sw.StoreChunk(ch)
+				case "get":
+					_, err := sw.GetChunk(ch.ID())
+					res <- err
+				default:
+					_, err := sw.HasChunk(ch.ID())
+					res <- err
+				}
+			}()
+			select {
+			case <-old.entered:
+			case <-time.After(5 * time.Second):
+			}
+			swapped := make(chan struct{})
+			go func() { sw.Swap(newClosableWriteStore(1)); close(swapped) }()
+			early := false
+			select {
+			case <-swapped:
+				early = true
+			case <-time.After(15 * time.Millisecond):
+			}
+			close(old.gate)
+			var err error
+			select {
+			case err = <-res:
+			case <-time.After(5 * time.Second):
+				err = errors.New("the request did not return")
+			}
+			select {
+			case <-swapped:
+			case <-time.After(5 * time.Second):
+				monitor("Swap did not return after the in-flight request had finished", "swap.in-flight kind="+kind)
+			}
+			caseLine := fmt.Sprintf("swap.in-flight it=%d kind=%s", it, kind)
+			rep.Count(caseLine, true, "swap-in-flight")
+			if early {
+				monitor("Swap closed the old store while a "+kind+" request was in flight in it", caseLine)
+			}
+			if err != nil {
+				monitor("a "+kind+" request that was in flight during a Swap failed: "+err.Error(), caseLine)
+			}
+		}
+	}
+
 	// swap histories on a writable wrapper: after Swap(new) every request — reads and writes alike — goes to the new
 	// store, nothing reaches the store that Swap closed, and what was written can be read back through the wrapper
 	for it := 0; it < cfg.N(60, 1000); it++ {
@@ -606,3 +661,40 @@ func (s *closableStore) Close() error {
 	return nil
 }
 func (s *closableStore) String() string { return "closable" }
+
+// gatedCloseStore: every request stops at its entry until the gate opens, then fails if the store was closed meanwhile
+type gatedCloseStore struct {
+	mu      sync.Mutex
+	closed  bool
+	gate    chan struct{}
+	entered chan struct{}
+}
+
+func (s *gatedCloseStore) wait() error {
+	select {
+	case s.entered <- struct{}{}:
+	default:
+	}
+	<-s.gate
+	s.mu.Lock()
+	defer s.mu.Unlock()
+	if s.closed {
+		return errors.New("the store was closed during the request")
+	}
+	return nil
+}
+func (s *gatedCloseStore) GetChunk(id desync.ChunkID) (*desync.Chunk, error) {
+	if err := s.wait(); err != nil {
+		return nil, err
+	}
+	return desync.NewChunkWithID(id, []byte("x"), true)
+}
+func (s *gatedCloseStore) HasChunk(id desync.ChunkID) (bool, error) { return true, s.wait() }
+func (s *gatedCloseStore) StoreChunk(c *desync.Chunk) error         { return s.wait() }
+func (s *gatedCloseStore) Close() error {
+	s.mu.Lock()
+	s.closed = true
+	s.mu.Unlock()
+	return nil
+}
+func (s *gatedCloseStore) String() string { return "gated-close" }
